@@ -45,20 +45,41 @@ def gattrs(a) -> str:
 # implementation observers
 
 
-def _ie(f):
-    """value or None for IndexError (the only exception the modelled code may raise)"""
+IMPL_EXC: list = []        # (what, exception) for every non-IndexError exception an observed function raised
+BAD = -777777              # stands for "raised something else than IndexError" (no model value equals it)
+
+
+def safe_tb(e: BaseException) -> str:
+    """traceback text WITHOUT traceback.format_exception: for a NameError/AttributeError raised inside a
+    property getter, Python 3.12 computes a 'did you mean' suggestion with hasattr(obj, name), which calls the
+    broken getter again and raises out of the formatter"""
+    import traceback
+    try:
+        return "".join(traceback.format_tb(e.__traceback__))[-3500:] + f"{type(e).__name__}: {e}"
+    except Exception:  # noqa
+        return f"{type(e).__name__}"
+
+
+def _ie(f, bad=None, what=""):
+    """value; None for IndexError (the only exception the modelled code may raise); `bad` for anything else"""
     try:
         return f()
     except IndexError:
         return None
+    except Exception as e:  # noqa -- an implementation function changed shape: recorded and reported
+        if len(IMPL_EXC) < 50:
+            IMPL_EXC.append((what, f"{type(e).__name__}: {e}"[:200]))
+        return bad
 
 
 def obs_string(core, s: str):
     table = list(core._get_line_start_charnos(s))
     slines = s.splitlines(keepends=True)
     ps = range(-1, len(s) + 2)
-    lcs = [_ie(lambda p=p: tuple(core.Match(core.Range(p, p), s, ())._lineno_col_offset())) for p in ps]
-    charnos = [[_ie(lambda l=l, c=c: core._get_charno(s, l, c)) for c in ps] for l in range(0, len(table) + 2)]
+    lcs = [_ie(lambda p=p: tuple(core.Match(core.Range(p, p), s, ())._lineno_col_offset()), (BAD, BAD),
+               f"Match._lineno_col_offset {s!r} {p}") for p in ps]
+    charnos = [[_ie(lambda l=l, c=c: core._get_charno(s, l, c), BAD, f"_get_charno {s!r} {l} {c}") for c in ps]
+               for l in range(0, len(table) + 2)]
     return table, slines, lcs, charnos
 
 
@@ -85,14 +106,16 @@ def node_inputs(node):
 
 def obs_node(core, s, node, oracle=None):
     decs, a, is_def = node_inputs(node)
-    r0 = _ie(lambda: tuple(core.get_charnos(node, s)))
-    r1 = _ie(lambda: tuple(core.get_charnos(node, s, keep_first_indent=True)))
+    r0 = _ie(lambda: tuple(core.get_charnos(node, s)), (BAD, BAD), f"get_charnos {s!r}")
+    r1 = _ie(lambda: tuple(core.get_charnos(node, s, keep_first_indent=True)), (BAD, BAD), f"get_charnos keep {s!r}")
     lc = None
     if r0 is not None:
         m = core.Match(core.Range(*r0), s, (node,))
-        lc = _ie(lambda: (m.lineno, m.col_offset))
-        if lc is not None and m.string != s[r0[0]:r0[1]]:
-            raise AssertionError("Match.string is not the slice")  # modelled as py_slice; never seen
+        lc = _ie(lambda: (m.lineno, m.col_offset), (BAD, BAD), f"Match.lineno/col_offset {s!r} {r0}")
+        if lc is not None and _ie(lambda: m.string, None, "Match.string") != s[r0[0]:r0[1]]:
+            lc = (BAD, BAD)     # Match.string is modelled as py_slice: a different text shows up as a disagreement
+        if m.start != r0[0] or m.end != r0[1] or m.root is not node:
+            lc = (BAD, BAD)     # Match.start / end / root are the span ends and the first group
     return decs, a, is_def, r0, r1, lc, oracle
 
 
@@ -453,12 +476,12 @@ def grid_obs_flat(core, variants, agrid, s):
     for decs, is_def in variants:
         for a in agrid:
             node = fake_node(decs, a, is_def)
-            r0 = _ie(lambda: tuple(core.get_charnos(node, s)))
-            r1 = _ie(lambda: tuple(core.get_charnos(node, s, keep_first_indent=True)))
+            r0 = _ie(lambda: tuple(core.get_charnos(node, s)), (BAD, BAD), f"get_charnos grid {s!r} {a}")
+            r1 = _ie(lambda: tuple(core.get_charnos(node, s, keep_first_indent=True)), (BAD, BAD), f"get_charnos grid {s!r} {a}")
             out += enc_o(r0) + enc_o(r1)
             if r0 is not None:
                 m = core.Match(core.Range(*r0), s, ())
-                out += enc_o(_ie(lambda: (m.lineno, m.col_offset))) + [len(m.string)]
+                out += enc_o(_ie(lambda: (m.lineno, m.col_offset), (BAD, BAD), "Match.lineno")) + [len(m.string)]
     return out
 
 
@@ -492,7 +515,7 @@ def grid_extra() -> str:
 # API level
 
 PATTERNS = ["{{a}} + {{b}}", "{{x}} = {{y}}", "{{f}}({{x}})", "return {{x}}", "pass",
-            ast.FunctionDef, ast.ClassDef, ast.Call, (ast.Name, ast.Constant), ast.stmt]
+            ast.FunctionDef, ast.ClassDef, ast.Call, (ast.Name, ast.Constant), ast.stmt, ast.Module]
 STATEMENTS = ["x + y < 3", "u + v", "f(g(1))", "a = b + c", "print(len(q))[0]", "foo(1)", "x = 1", "pass",
               "def f():\n    return 1 + 2", "@dec\ndef g(a):\n    return h(a)", "class A:\n    y = f(2)",
               "é = 'é' + f(ß)", "s = '\x0c'; t = f(s) + 1"]
@@ -509,7 +532,7 @@ def pattern_name(p) -> str:
 def api_family():
     """deterministic (pattern, source) family: all single statements and ordered pairs of statements,
     some line-end / trailing-newline variants"""
-    srcs = []
+    srcs = ["", "\n", "# only a comment\n", "# c"]      # modules without statements: match/fullmatch give None
     for a in STATEMENTS:
         srcs.append(a + "\n")
     for a, b in itertools.permutations(STATEMENTS, 2):
@@ -520,28 +543,65 @@ def api_family():
     return srcs
 
 
+KERNEL_FUNCS = {"get_charnos", "_get_charno", "_get_line_start_charnos", "_get_position", "_lineno_col_offset",
+                "lineno", "col_offset", "string", "root", "start", "end"}
+
+
 def obs_api(mods, pattern, s):
-    """what the wrappers return for (pattern, source); None if the search itself raises"""
+    """what the wrappers return for (pattern, source); None if the search itself raises.
+    If finditer works but a wrapper or a Match property raises, the result carries a "crash" entry
+    (a property violation: the wrappers are defined in terms of finditer)."""
     core, pm = mods["core"], mods["pattern_matching"]
     try:
         with common.quiet():
             ms = list(pm.finditer(pattern, s))
-    except Exception:  # noqa -- matcher/compile problems are C12's business
+            spans = [tuple(m.span) for m in ms]
+    except Exception as e:  # noqa -- matcher/compile problems are C12's business ...
+        tb, inner = e.__traceback__, []
+        while tb is not None:
+            inner.append(tb.tb_frame.f_code.co_name)
+            tb = tb.tb_next
+        if inner and inner[-1] in KERNEL_FUNCS:      # ... unless the offset arithmetic itself raised
+            return {"pattern": pattern_name(pattern), "source": s, "spans": [],
+                    "crash": f"finditer raised {type(e).__name__}: {e} in core.{inner[-1]}"[:300]}
         return None
-    spans = [tuple(m.span) for m in ms]
-    with common.quiet():
-        fa = pm.findall(pattern, s)
-        se = pm.search(pattern, s)
-        ma = pm.match(pattern, s)
-        fu = pm.fullmatch(pattern, s)
-    body = [tuple(core.get_charnos(n, s)) for n in ast.parse(s).body]
-    cli = []
-    for m in ms:
-        cli.append(_ie(lambda: (m.lineno, m.col_offset, m.string.splitlines()[0])))
+    o = {"pattern": pattern_name(pattern), "source": s, "spans": spans,
+         "pattern_kind": "sequence" if isinstance(pattern, list) else "node"}
+    what = "?"
+    try:
+        with common.quiet():
+            what = "findall"
+            fa = pm.findall(pattern, s)
+            what = "search"
+            se = pm.search(pattern, s)
+            what = "match"
+            ma = pm.match(pattern, s)
+            what = "fullmatch"
+            fu = pm.fullmatch(pattern, s)
+        what = "get_charnos(body)"
+        body = [tuple(core.get_charnos(n, s)) for n in ast.parse(s).body]
+        cli = []
+        for m in ms:
+            what = f"Match{tuple(m.span)}.lineno/col_offset/string"
+            cli.append(_ie(lambda: (m.lineno, m.col_offset, m.string.splitlines()[0]), (BAD, BAD, "?"), what))
+        what = "Match.string/lineno/col_offset/start/end/root"
+        strings = [m.string for m in ms]
+        linecol = [(m.lineno, m.col_offset) for m in ms]
+        ends_ok = all((m.start, m.end) == tuple(m.span) for m in ms)
+        # the matched node: Match.root; its complete text by the independent oracle
+        b, offs = tok_line_offsets(s)
+        root_spans = []
+        for m in ms:
+            r = m.root
+            root_spans.append(node_text_span(s, b, offs, r) if isinstance(r, ast.AST) and has_position(r) else None)
+        roots_first = all(m.root is m.groups[0] for m in ms)
+    except Exception as e:  # noqa
+        o["crash"] = f"{what} raised {type(e).__name__}: {e}"[:300]
+        return o
     sp = lambda m: None if m is None else tuple(m.span)  # noqa
-    return {"pattern": pattern_name(pattern), "source": s, "spans": spans, "body": body, "findall": fa,
-            "search": sp(se), "match": sp(ma), "fullmatch": sp(fu), "cli": cli,
-            "strings": [m.string for m in ms], "linecol": [(m.lineno, m.col_offset) for m in ms]}
+    o.update(body=body, findall=fa, search=sp(se), match=sp(ma), fullmatch=sp(fu), cli=cli, strings=strings,
+             linecol=linecol, root_spans=root_spans, ends_ok=ends_ok and roots_first)
+    return o
 
 
 def api_case_coq(o) -> str:
@@ -558,15 +618,22 @@ def api_oracle(o, known_spans=()) -> str | None:
     cs = char_line_starts(s)
     body = ast.parse(s).body
     bs = [node_text_span(s, b, offs, n) for n in body]
-    for (st, en), text, (ln, col) in zip(o["spans"], o["strings"], o["linecol"]):
+    if o.get("crash"):
+        return o["crash"]
+    for (st, en), text, (ln, col), rs in zip(o["spans"], o["strings"], o["linecol"], o["root_spans"]):
         if (st, en) in known_spans:
             continue
+        if rs is not None and o["pattern_kind"] != "sequence" and rs != (st, en):
+            return (f"span {(st, en)} = {s[st:en]!r} is not the complete text of the matched node Match.root "
+                    f"({rs} = {s[rs[0]:rs[1]]!r})")
         if not (0 <= st <= en <= len(s)):
             return f"span {(st, en)} is not inside the source (length {len(s)})"
         if text != s[st:en]:
             return f"Match.string {text!r} is not the slice {s[st:en]!r}"
-        if ln < 1 or ln > len(cs) or cs[ln - 1] + col != st or (ln < len(cs) and st >= cs[ln]):
+        if ln < 1 or ln > len(cs) or col < 0 or cs[ln - 1] + col != st or (ln < len(cs) and st >= cs[ln]):
             return f"lineno/col_offset {ln}:{col} is not the position of offset {st}"
+    if not o["ends_ok"]:
+        return "Match.start/end are not the ends of Match.span, or Match.root is not the first group"
     if o["findall"] != o["strings"]:
         return "findall differs from the texts of finditer"
     if o["search"] != (o["spans"][0] if o["spans"] else None):
@@ -586,7 +653,7 @@ def api_oracle(o, known_spans=()) -> str | None:
     return None
 
 
-def run_cli(wd: Path, pattern: str, sources: list[str]):
+def run_cli(wd: Path, pattern: str, sources: list[str], mods_pm=None):
     """`python -m pyrefact.pattern_matching find <pattern> <dir>`: {file index: [(lineno, col, text)]}"""
     d = wd / ("cli_" + str(abs(hash(pattern)) % 10**8))
     d.mkdir(parents=True, exist_ok=True)
@@ -596,6 +663,22 @@ def run_cli(wd: Path, pattern: str, sources: list[str]):
     r = subprocess.run([sys.executable, "-m", "pyrefact.pattern_matching", "find", pattern, str(d)],
                        capture_output=True, env=env, timeout=300)
     out = r.stdout.decode("utf-8")
+    # the same through main() without arguments (argv taken from sys.argv), in process
+    import contextlib as _cl
+    import locale as _lc
+    if _lc.getpreferredencoding(False).lower().replace("-", "") != "utf8":
+        mods_pm = None      # read_text() of the in-process run would not decode the files the way the subprocess does
+    buf = io.StringIO()
+    old_argv = sys.argv
+    try:
+        sys.argv = ["pyrefind", "find", pattern, str(d)]
+        with _cl.redirect_stdout(buf):
+            rc_inproc = mods_pm.main() if mods_pm is not None else r.returncode
+    except BaseException as e:  # noqa (argparse exits with SystemExit)
+        rc_inproc = f"{type(e).__name__}: {e}"
+    finally:
+        sys.argv = old_argv
+    inproc_differs = mods_pm is not None and (rc_inproc != r.returncode or buf.getvalue() != out)
     res = {i: [] for i in range(len(sources))}
     import re as _re
     bad = []
@@ -607,8 +690,49 @@ def run_cli(wd: Path, pattern: str, sources: list[str]):
             bad.append(line)
             continue
         res[int(m.group(1))].append((int(m.group(2)), int(m.group(3)), m.group(4)))
-    texts = [(d / f"m{i:04d}.py").read_text(encoding="utf-8") for i in range(len(sources))]
+    # main() reads the files with newline="" (fix 170ab4f): the text is the file content, line ends untouched
+    texts = [(d / f"m{i:04d}.py").read_bytes().decode("utf-8") for i in range(len(sources))]
+    if inproc_differs:
+        bad.append(f"main() with sys.argv (in process) returned {rc_inproc!r} / printed {len(buf.getvalue())} characters; "
+                   f"the subprocess returned {r.returncode} / printed {len(out)} characters")
     return res, texts, bad, r.returncode, r.stderr.decode("utf-8", "replace")[-800:]
+
+
+def run_cli_replace(wd: Path, mods, pattern: str, repl: str, sources: list[str]):
+    """`python -m pyrefact.pattern_matching replace <pattern> <repl> <dir>`: every file must end up as
+    sub(pattern, repl, text) says (unchanged files are not rewritten); one 'Parsing' line per file"""
+    d = wd / "cli_replace"
+    d.mkdir(parents=True, exist_ok=True)
+    for i, s in enumerate(sources):
+        (d / f"m{i:04d}.py").write_bytes(s.encode("utf-8"))
+    expected = {}
+    for i, s in enumerate(sources):
+        f = d / f"m{i:04d}.py"
+        text = f.read_bytes().decode("utf-8")       # newline="" on both sides since fix 170ab4f
+        try:
+            with common.quiet():
+                new = mods["pattern_matching"].sub(pattern, repl, text)
+        except Exception:  # noqa
+            new = None
+        expected[i] = None if new is None else new.encode("utf-8")
+    env = dict(os.environ, PYTHONPATH=str(common.REPO), PYTHONIOENCODING="utf-8", PYTHONUTF8="1", PYTHONHASHSEED="0")
+    r = subprocess.run([sys.executable, "-m", "pyrefact.pattern_matching", "replace", pattern, repl, str(d)],
+                       capture_output=True, env=env, timeout=300)
+    if r.returncode != 0 and all(v is not None for v in expected.values()):
+        return {"command": "replace", "returncode": r.returncode, "stderr": r.stderr.decode("utf-8", "replace")[-500:]}
+    changed = sum(1 for i, s in enumerate(sources) if expected[i] not in (None, s.encode("utf-8")))
+    for i in range(len(sources)):
+        got = (d / f"m{i:04d}.py").read_bytes()
+        if expected[i] is not None and got != expected[i]:
+            return {"command": "replace", "pattern": pattern, "replacement": repl, "source": sources[i],
+                    "file_after": got.decode("utf-8", "replace"), "expected": expected[i].decode("utf-8", "replace"),
+                    "files_sub_changes": changed}
+    n_parsing = sum(1 for l in r.stdout.decode("utf-8", "replace").split("\n") if l.startswith("Parsing "))
+    if r.returncode == 0 and n_parsing != len(sources):
+        return {"command": "replace", "problem": f"{n_parsing} 'Parsing' lines for {len(sources)} files"}
+    if changed == 0:
+        return {"command": "replace", "problem": "the replace family exercises no change (harness too weak)"}
+    return None
 
 
 # ---------------------------------------------------------------------------------------------
@@ -784,7 +908,21 @@ def source_nodes_case(core, s, with_oracle=True):
 
 
 def check(run: common.Run):
+    """never lets an exception escape: a crash of the check is a VIOLATION (formatted without
+    traceback.format_exception, see safe_tb)"""
+    try:
+        _check(run)
+    except Exception as e:  # noqa
+        run.violation({"kind": "check-crashed", "detail": safe_tb(e), "impl_exceptions": IMPL_EXC[:5],
+                       "explanation": "harness/c13.py raised on this tree (an implementation function it drives changed "
+                                      "shape or crashed); nothing is shown to hold"}, False)
+        if not run.coverage.get("obligations"):
+            run.coverage.update(obligations=1, discharged=0, checker_cmd="(check crashed)", trusted_base=[])
+
+
+def _check(run: common.Run):
     import time as _t
+    del IMPL_EXC[:]
     t0 = _t.time()
     wd = common.workdir(PID)
     ps = common.proof_step(run, PID, wd)
@@ -906,12 +1044,16 @@ def check(run: common.Run):
     n_api_rand = 40 if quick else 400
     for i in range(n_api_rand):
         api_srcs.append(gen_source(rnd, maxdepth=2, nstmts=1 + i % 3, **feature_cycle[i % len(feature_cycle)]))
-    api_obs, api_skipped = [], 0
+    api_obs, api_skipped, api_crash = [], 0, []
     for s in api_srcs:
         for pat in PATTERNS:
             o = obs_api(mods, pat, s)
             if o is None:
                 api_skipped += 1
+                continue
+            if o.get("crash"):
+                if len(api_crash) < 5:
+                    api_crash.append({"pattern": o["pattern"], "source": s, "problem": o["crash"], "site": "pattern_matching"})
                 continue
             api_obs.append(o)
             hist["api_matches"] += len(o["spans"])
@@ -934,17 +1076,23 @@ def check(run: common.Run):
     cli_srcs = api_srcs[:60] + api_srcs[-(20 if quick else 200):]
     cli_cases = []
     for pat in ["{{f}}({{x}})", "{{x}} = {{y}}", "{{a}} + {{b}}"]:
-        res, texts, badlines, rc, err = run_cli(wd, pat, cli_srcs)
-        if rc != 0 or badlines:
+        res, texts, badlines, rc, err = run_cli(wd, pat, cli_srcs, mods["pattern_matching"])
+        if badlines:
             cli_problems.append({"pattern": pat, "returncode": rc, "unparsed_lines": badlines[:3], "stderr": err})
+        if rc != 0:
+            cli_fail.append({"pattern": pat, "source": cli_srcs[0], "site": "pattern_matching.main",
+                             "problem": f"`python -m pyrefact.pattern_matching find {pat!r} <dir>` exits {rc}: {err[-300:]}"})
+            continue
         for i, text in enumerate(texts):
             o = obs_api(mods, pat, text)
-            if o is None:
+            if o is None or o.get("crash"):
                 continue
             # the in-process wrappers give the spans; the printed fields come from the subprocess
             printed = res[i]
             if len(printed) != len(o["spans"]):
-                cli_problems.append({"pattern": pat, "source": text, "printed": printed, "spans": o["spans"]})
+                cli_fail.append({"pattern": pat, "source": text, "site": "pattern_matching.main",
+                                 "problem": f"`find` printed {len(printed)} lines {printed[:3]} for {len(o['spans'])} matches "
+                                            f"{o['spans'][:3]}"})
                 continue
             # property oracle for "the command-line finder prints these same locations"
             for (pl, pc, ptxt), (ml, mc), mstr in zip(printed, o["linecol"], o["strings"]):
@@ -953,6 +1101,11 @@ def check(run: common.Run):
                                      "problem": f"`find` printed {pl}:{pc}: {ptxt!r} for the match at {ml}:{mc} ({mstr!r})"})
             o = dict(o, cli=printed)
             cli_cases.append(o)
+    # the `replace` sub-command (thin glue around sub(), C14's subject): files end up as sub() says
+    rep_problem = run_cli_replace(wd, mods, "{{f}}({{x}})", "{{f}}({{x}}, 1)", api_srcs[:40] + api_family()[-6:])
+    if rep_problem:
+        cli_problems.append(rep_problem)
+    hist["cli_replace_files"] = 46
     for k in range(0, len(cli_cases), 250):
         shard = cli_cases[k:k + 250]
         add_file(f"cli_{k // 250}.v", HEADER + "Definition cases : list api_case := [\n "
@@ -1039,7 +1192,7 @@ def check(run: common.Run):
             else:
                 sweep_known[m.id] += 1
                 known_examples.setdefault(m.id, f)
-    api_fail = []
+    api_fail = list(api_crash)
     det_srcs = set(api_srcs[:len(api_family()) + len(corpus)])
     known_cache = {}
     for o in api_obs:
@@ -1052,8 +1205,11 @@ def check(run: common.Run):
                 api_fail.append({"pattern": o["pattern"], "source": o["source"], "problem": pr, "site": "pattern_matching"})
     for c in corpus:   # witnesses of `fixed:` entries must pass from now on
         if c.get("expect_findall") is not None:
-            with common.quiet():
-                got = mods["pattern_matching"].findall(c["pattern"], c["source"])
+            try:
+                with common.quiet():
+                    got = mods["pattern_matching"].findall(c["pattern"], c["source"])
+            except Exception as e:  # noqa
+                got = f"raised {type(e).__name__}: {e}"
             if got != c["expect_findall"]:
                 api_fail.append({"pattern": c["pattern"], "source": c["source"], "site": "pattern_matching",
                                  "problem": f"fixed witness {c['file']} fails again: findall = {got!r}, expected {c['expect_findall']!r}"})
@@ -1083,7 +1239,7 @@ def check(run: common.Run):
 
     # ---- verdicts
     failing = sweep_fail + api_fail + cli_fail[:2]
-    if (disagreements or cli_problems or (ps.get("props") and not ps["props"]["ok"])) and not failing:
+    if (disagreements or cli_problems or IMPL_EXC or (ps.get("props") and not ps["props"]["ok"])) and not failing:
         # failing-input search: seeded random sources through the property oracle
         srnd = random.Random(run.seed + 7919)
         for _ in range(600):
@@ -1107,6 +1263,9 @@ def check(run: common.Run):
         run.violation({"kind": "property-oracle", **f,
                        "explanation": "a reported span / Match / wrapper result is not what the property requires "
                                       "(oracle: UTF-8 bytes + tokenizer lines, independent of pyrefact)"}, True)
+    if IMPL_EXC and not failing:
+        run.violation({"kind": "correspondence", "kernel": "K3", "detail": {"implementation_raised": IMPL_EXC[:8]},
+                       "explanation": "an observed implementation function raised something else than IndexError"}, False)
     if not failing:
         for d in disagreements[:5]:
             run.violation({"kind": "correspondence", "kernel": "K3", "detail": d,
